@@ -33,6 +33,7 @@ func main() {
 		solver    = flag.String("solver", "z3", "z3 | z3-new | cvc5")
 		unwind    = flag.Int("unwind", 8, "bound on symbolic branch decisions per block per frame")
 		maxSteps  = flag.Int("maxsteps", 5_000_000, "instruction budget per path")
+		maxSleeps = flag.Int("maxsleeps", 0, "bound on time.Sleep calls per path that cannot be skipped by a virtual-time jump (0 = 4 x unwind)")
 		maxPaths  = flag.Int("maxpaths", 0, "path budget (0 = none)")
 		timeoutMs = flag.Int("timeout-ms", 60000, "per-query solver timeout")
 		permMax   = flag.Int("mapperm", 3, "maps up to this size get all iteration orders when nondeterministic order is on")
@@ -51,6 +52,7 @@ func main() {
 	flag.Var(&harnesses, "harness", "pkgpath.Func (repeatable)")
 	flag.Var(&pkgs, "pkg", "package pattern to load (repeatable)")
 	flag.Var(&initPk, "initpkg", "extra package whose initialiser is executed")
+	flag.BoolVar(&forkProfOn, "forkprof", false, "print the sites of two-sided symbolic decisions")
 	cpuprof := flag.String("cpuprofile", "", "write CPU profile")
 	memGB := flag.Int("mem-gb", 6, "soft memory limit in GiB (the garbage collector runs only when it is approached)")
 	flag.Parse()
@@ -172,7 +174,7 @@ func main() {
 			o.Errors = append(o.Errors, "harness not found: "+h)
 			continue
 		}
-		c := &Config{Unwind: *unwind, MaxSteps: *maxSteps, MapPermMax: *permMax, Solver: *solver,
+		c := &Config{Unwind: *unwind, MaxSteps: *maxSteps, MaxSleeps: *maxSleeps, MapPermMax: *permMax, Solver: *solver,
 			TimeoutMs: *timeoutMs, Workers: *workers, MaxPaths: *maxPaths, QueryLog: *qlog, Concrete: conc, NoSlice: *noslice, Calib: calib, StepProf: *stepprof}
 		if *only != "" {
 			c.Only = strings.Split(*only, ",")
@@ -193,6 +195,21 @@ func main() {
 		}
 		for _, p := range rr.Problems {
 			fmt.Fprintf(os.Stderr, "   PROBLEM %s\n", firstLines(p, 12))
+		}
+	}
+	if forkProfOn {
+		type kv struct {
+			k string
+			n int64
+		}
+		var all []kv
+		forkProf.Range(func(k, v any) bool { all = append(all, kv{k.(string), *v.(*int64)}); return true })
+		sort.Slice(all, func(i, j int) bool { return all[i].n > all[j].n })
+		for i, e := range all {
+			if i >= 25 {
+				break
+			}
+			fmt.Fprintf(os.Stderr, "   FORK %8d %s\n", e.n, e.k)
 		}
 	}
 	b, _ := json.MarshalIndent(o, "", " ")
